@@ -200,6 +200,8 @@ class Evaluator:
             if dk == "res":
                 return 0 if some else 1
             raise Unmodelled("%s: discriminant of an option-like value of unknown type %r" % (fn.id, dk))
+        if isinstance(v, tuple) and v and v[0] == "enum" and v[1] in ("Ok", "Err") and (dk is None or dk == "res" or str(dk).startswith("core::result::Result")):
+            return 0 if v[1] == "Ok" else 1
         if isinstance(v, tuple) and v and v[0] == "enum":
             for aid, a in self.prog.adts.items():
                 if dk and aid == dk.split("<")[0]:
@@ -225,6 +227,8 @@ class Evaluator:
             if name in ("Some", "Continue", "Ok"):
                 if isinstance(v, tuple) and v and v[0] == "some":
                     return ("payload", v[1])
+                if isinstance(v, tuple) and v and v[0] == "enum" and v[1] == name:
+                    return v
                 raise Unmodelled("%s: %s of %r" % (fn.id, acc, v))
             if isinstance(v, tuple) and v and v[0] == "enum" and v[1] == name:
                 return v
@@ -422,6 +426,42 @@ class Evaluator:
             return guard(d0, lambda args, fn: ymd_opt(args[1], args[0][1], args[0][2]))
         if name == "date" and n == 1:
             return guard(d0, lambda args, fn: args[0])
+        # slices of distinct ordered values
+        islist = lambda args: isinstance(args[0], list)
+        if full.endswith("slice::binary_search") and n == 2:
+            def bsearch(args, fn):
+                v, x = args
+                if any(ok(v[i]) >= ok(v[i + 1]) for i in range(len(v) - 1)):
+                    raise Unmodelled("%s: binary_search on a slice that is not strictly increasing" % fn.id)
+                for i, e in enumerate(v):
+                    if ok(e) == ok(x):
+                        return ("enum", "Ok", {"0": i})
+                    if ok(e) > ok(x):
+                        return ("enum", "Err", {"0": i})
+                return ("enum", "Err", {"0": len(v)})
+            return guard(islist, bsearch)
+        if full.endswith("slice::get") and n == 2:
+            return guard(islist, lambda args, fn: ("some", args[0][args[1]]) if isinstance(args[1], int) and 0 <= args[1] < len(args[0]) else None)
+        if full.endswith("slice::last") and n == 1:
+            return guard(islist, lambda args, fn: ("some", args[0][-1]) if args[0] else None)
+        if full.endswith("slice::first") and n == 1:
+            return guard(islist, lambda args, fn: ("some", args[0][0]) if args[0] else None)
+        if (full.endswith("slice::len") or full.endswith("Vec::len")) and n == 1:
+            return guard(islist, lambda args, fn: len(args[0]))
+        if (full.endswith("slice::is_empty") or full.endswith("Vec::is_empty")) and n == 1:
+            return guard(islist, lambda args, fn: not args[0])
+        if full.endswith("slice::contains") and n == 2:
+            return guard(islist, lambda args, fn: args[1] in args[0])
+        isres = lambda args: isinstance(args[0], tuple) and args[0] and args[0][0] == "enum" and args[0][1] in ("Ok", "Err")
+        if full.endswith("Result::is_ok") and n == 1:
+            return guard(isres, lambda args, fn: args[0][1] == "Ok")
+        if full.endswith("Result::is_err") and n == 1:
+            return guard(isres, lambda args, fn: args[0][1] == "Err")
+        isopt = lambda args: args[0] is None or (isinstance(args[0], tuple) and args[0] and args[0][0] == "some")
+        if full.endswith("Option::is_some") and n == 1:
+            return guard(isopt, lambda args, fn: args[0] is not None)
+        if full.endswith("Option::is_none") and n == 1:
+            return guard(isopt, lambda args, fn: args[0] is None)
         callee = self.resolve(full, n)
         if callee is not None:
             return lambda args, fn: self.run(callee, args)
